@@ -90,12 +90,16 @@ def refs_of(script, line, col, root):
     return out, outside
 
 
-def check_program(src, chain, only_occ=None):
+def check_program(src, chain, only_occ=None, layout=None):
     jedi = boot.boot()
     env = boot.environment()
     prog = pf.build(src, chain)
     pid = prog.pid()
     files = prog.render()
+    if layout == 'uedge':
+        # identifiers that start and end with a non-ASCII letter (byte-level \\b is ASCII only)
+        pid += '/uedge'
+        files = {k: pf.unicode_edge_names(v) for k, v in files.items()}
     base = os.path.join(boot.scratch_root(), 'c05', '%d_%s' % (os.getpid(), abs(hash(pid)) % 10 ** 8))
     shutil.rmtree(base, ignore_errors=True)
     src_dir = os.path.join(base, 'src')
@@ -117,6 +121,8 @@ def check_program(src, chain, only_occ=None):
             return out
         bound, mods = bound_names(files)
         skip = prog.protocol()
+        if layout == 'uedge':
+            skip = {pf.unicode_edge_names(x) for x in skip}
         project = jedi.Project(src_dir)
         scripts = {}
 
@@ -267,7 +273,7 @@ def check_program(src, chain, only_occ=None):
 
 
 def _work(task):
-    return check_program(task['src'], task['chain'])
+    return check_program(task['src'], task['chain'], layout=task.get('layout'))
 
 
 DEPTH1_ONLY = {'nonlocal_', 'import_as', 'from_import_as', 'kwarg_xmod'}
@@ -294,7 +300,13 @@ def _levels(tier):
                    [(s, [a, b]) for s in ['inst', 'cls', 'func'] for a in pf.CARRIER_NAMES
                     if a not in DEPTH1_ONLY for b in multi]))
         lv.append(('depth2: core pairs x {inst}', list(pf.enumerate_programs(2, ['inst'], core))))
-    return [(n, [dict(src=s, chain=c) for s, c in ts]) for n, ts in lv]
+    out = [(n, [dict(src=s, chain=c) for s, c in ts]) for n, ts in lv]
+    xm = [c for c in multi if c not in DEPTH1_ONLY] + ['global_', 'global_rebind_fn', 'init_attr',
+                                                       'inherited_method']
+    srcs = ['inst'] if tier == 'quick' else ['inst', 'cls', 'func']
+    out.append(('unicode-edge identifiers (äname…ß): multi-module and global carriers',
+                [dict(src=s, chain=[c], layout='uedge') for s in srcs for c in xm]))
+    return out
 
 
 def run(ctx):
@@ -361,6 +373,6 @@ def run(ctx):
 def replay(case):
     _init()
     t = case['task']
-    r = check_program(t['src'], t['chain'])
+    r = check_program(t['src'], t['chain'], layout=t.get('layout'))
     return [(f['site'], f['input'], {k: v for k, v in f['detail'].items() if k != 'program'})
             for f in r['fails'] if 'input' not in case or f['input'] == case['input']]
